@@ -5,6 +5,8 @@ Regenerated on every run from the working tree under verification (core.REPO):
   * pallas-traverse/src/wellknown.rs  `GenesisValues::{mainnet,testnet,preview,preprod}` struct literals
     (numeric fields; `magic`/`network_id` resolved through the `pub const` table of the same file),
     plus the `from_magic` dispatch table.
+  * multiplexer constants of both network stacks (HEADER_LEN, MAX_SEGMENT_PAYLOAD_LENGTH, queue sizes, the
+    `^ 0x8000` direction masks of Plexer::subscribe_client/_server, PROTOCOL_SERVER).
 
 Fails closed: a constructor, field or value that is not understood becomes an entry of `unknowns`
 (a list of strings) and the generated file carries `theorem unknowns_nil : unknowns = [] := by decide`,
@@ -160,9 +162,54 @@ def parse_wellknown(path):
     return nets, magic, unknowns
 
 
+MUX_CONSTS = [
+    # (lean name, file, regex with one group = the literal)
+    ("mux1HeaderLen", "pallas-network/src/multiplexer.rs", r"const\s+HEADER_LEN\s*:\s*usize\s*=\s*([0-9a-fx_]+)\s*;"),
+    ("mux1MaxSegmentPayloadLength", "pallas-network/src/multiplexer.rs", r"pub\s+const\s+MAX_SEGMENT_PAYLOAD_LENGTH\s*:\s*usize\s*=\s*([0-9a-fx_]+)\s*;"),
+    ("mux1EgressQueueBuffer", "pallas-network/src/multiplexer.rs", r"const\s+EGRESS_MSG_QUEUE_BUFFER\s*:\s*usize\s*=\s*([0-9a-fx_]+)\s*;"),
+    ("mux1IngressQueueBuffer", "pallas-network/src/multiplexer.rs", r"const\s+INGRESS_MSG_QUEUE_BUFFER\s*:\s*usize\s*=\s*([0-9a-fx_]+)\s*;"),
+    ("mux1ClientRecvMask", "pallas-network/src/multiplexer.rs", r"fn\s+subscribe_client\b[^}]*?self\.demuxer\.subscribe\(\s*protocol\s*\^\s*([0-9a-fx_]+)\s*\)"),
+    ("mux1ServerSendMask", "pallas-network/src/multiplexer.rs", r"fn\s+subscribe_server\b[^}]*?AgentChannel::for_server\(\s*protocol\s*\^\s*([0-9a-fx_]+)\s*,"),
+    ("mux2HeaderLen", "pallas-network2/src/bearer.rs", r"const\s+HEADER_LEN\s*:\s*usize\s*=\s*([0-9a-fx_]+)\s*;"),
+    ("mux2MaxSegmentPayloadLength", "pallas-network2/src/lib.rs", r"pub\s+const\s+MAX_SEGMENT_PAYLOAD_LENGTH\s*:\s*usize\s*=\s*([0-9a-fx_]+)\s*;"),
+    ("mux2ProtocolServer", "pallas-network2/src/protocol/common.rs", r"pub\s+const\s+PROTOCOL_SERVER\s*:\s*u16\s*=\s*([0-9a-fx_]+)\s*;"),
+]
+# subscribe_* must keep their plain halves: client sends `protocol`, server listens on `protocol`
+MUX_SHAPES = [
+    ("subscribe_client sends under `protocol`", "pallas-network/src/multiplexer.rs", r"fn\s+subscribe_client\b[^}]*?AgentChannel::for_client\(\s*protocol\s*,"),
+    ("subscribe_server listens on `protocol`", "pallas-network/src/multiplexer.rs", r"fn\s+subscribe_server\b[^}]*?self\.demuxer\.subscribe\(\s*protocol\s*\)"),
+]
+
+
+def parse_mux(repo):
+    vals, unknowns, cache = {}, [], {}
+    def src(f):
+        if f not in cache:
+            try:
+                cache[f] = strip_rust_comments(open(os.path.join(repo, f)).read())
+            except OSError:
+                cache[f] = None
+        return cache[f]
+    for name, f, rx in MUX_CONSTS:
+        t = src(f)
+        ms = re.findall(rx, t, flags=re.S) if t is not None else []
+        v = parse_int(ms[0], {}) if len(ms) == 1 else None
+        if v is None:
+            unknowns.append(f"{name}: expected exactly one parsable match in {f}")
+            v = 0
+        vals[name] = v
+    for what, f, rx in MUX_SHAPES:
+        t = src(f)
+        if t is None or len(re.findall(rx, t, flags=re.S)) != 1:
+            unknowns.append(f"{what}: shape not found in {f}")
+    return vals, unknowns
+
+
 def translate(repo, lean_root):
     path = os.path.join(repo, "pallas-traverse", "src", "wellknown.rs")
     nets, magic, unknowns = parse_wellknown(path)
+    mux, mux_unknowns = parse_mux(repo)
+    unknowns = unknowns + mux_unknowns
     out = []
     out.append("-- GENERATED by lib/translate_consts.py from pallas-traverse/src/wellknown.rs — do not edit")
     out.append("import PallasVerif.Model.Time")
@@ -189,6 +236,10 @@ def translate(repo, lean_root):
     out.append("/-- `GenesisValues::from_magic` dispatch table (magic, constructor name) -/")
     out.append("def fromMagicTable : List (Nat × String) := ["
                + ", ".join(f"({m}, {lean_str(n)})" for m, n in magic) + "]")
+    out.append("")
+    out.append("/-! multiplexer constants (pallas-network/src/multiplexer.rs, pallas-network2/src/{bearer,lib,protocol/common}.rs) -/")
+    for name, _, _ in MUX_CONSTS:
+        out.append(f"def {name} : Nat := {mux[name]}")
     out.append("")
     out.append("/-- constructs the translator could not classify (must be empty) -/")
     out.append("def unknowns : List String := [" + ", ".join(lean_str(u) for u in unknowns) + "]")
